@@ -13,7 +13,7 @@ from jv.props import common as C
 
 ID = "C13"
 LEVEL = "exploration"
-BUDGET = {"quick": 1600, "thorough": 26000}
+BUDGET = {"quick": 2600, "thorough": 32000}
 RULE = (
     "case = generated scenario (reports on/off) x schedule x optional lost batches (sbatch failing for its whole "
     "retry series -> missing jobs) x optional resubmit-jobs attempt while the submission is incomplete (fired a "
